@@ -21,6 +21,7 @@ type CaseC08 struct {
 	// negative variant: "", "command", "encrypted", "table-id", "identifier"
 	Negative string `json:"negative"`
 	NegValue int    `json:"neg_value"`
+	NegLen   int    `json:"neg_len,omitempty"` // short negatives: body bytes of the foreign section / private bytes behind the foreign identifier
 }
 
 func genC08(t *rapid.T) CaseC08 {
@@ -29,12 +30,15 @@ func genC08(t *rapid.T) CaseC08 {
 	c.Splice.Stuffing = rapid.SampledFrom([]int{0, 0, 0, 1, 2, 3, 4, 7, 8}).Draw(t, "alignment-stuffing")
 	c.Pointer = rapid.SampledFrom([]int{0, 0, 0, 0, 1, 2, 5, 20, 183, 254, 255}).Draw(t, "pointer")
 	if rapid.IntRange(0, 5).Draw(t, "negative") == 0 {
-		c.Negative = rapid.SampledFrom([]string{"command", "encrypted", "table-id", "identifier"}).Draw(t, "neg-kind")
+		c.Negative = rapid.SampledFrom([]string{"command", "encrypted", "table-id", "identifier", "identifier-short", "table-id-short"}).Draw(t, "neg-kind")
 		switch c.Negative {
 		case "command":
 			c.NegValue = int(rapid.SampledFrom([]byte{0x04, 0x07, 0xFF, 0x01, 0x02, 0x03, 0x08, 0x80}).Draw(t, "neg-cmd"))
-		case "table-id":
+		case "table-id", "table-id-short":
 			c.NegValue = int(rapid.SampledFrom([]byte{0x00, 0x02, 0xFB, 0xFD, 0xFF, 0x7C}).Draw(t, "neg-tid"))
+			c.NegLen = rapid.IntRange(0, 10).Draw(t, "neg-short-len")
+		case "identifier-short":
+			c.NegLen = rapid.IntRange(0, 4).Draw(t, "neg-private-bytes")
 		case "identifier":
 			c.NegValue = rapid.IntRange(0, 31).Draw(t, "neg-id-bit")
 		}
@@ -115,6 +119,20 @@ func c08Negative(c CaseC08, x *hx.Ctx) *hx.Failure {
 			m.Descs = append(m.Descs, d)
 		}
 		want = gots.ErrSCTE35InvalidDescriptorID
+	case "identifier-short":
+		// somebody else's descriptor under tag 0x02: their identifier and only a few private bytes
+		// (shorter than a segmentation descriptor's fixed part): it is the identifier that disqualifies it
+		body := append([]byte("ABCD"), bytes.Repeat([]byte{0x5A}, c.NegLen)...)
+		m.Descs = append(m.Descs, ref.SpliceDesc{Foreign: true, FTag: 0x02, FBody: body})
+		want = gots.ErrSCTE35InvalidDescriptorID
+	case "table-id-short":
+		// a complete, short section of another table (shorter than any splice_info_section)
+		sec := ref.ForeignSection(byte(c.NegValue), bytes.Repeat([]byte{0x11}, c.NegLen))
+		s, err := scte35.NewSCTE35(c08Input(c, sec))
+		if err != gots.ErrUnknownTableID {
+			return hx.Failf("reject-table-id-short", "a %d-byte section with table_id %#x must be rejected with %q, got (%v, %v)\n section %x", len(sec), c.NegValue, gots.ErrUnknownTableID, s != nil, err, sec)
+		}
+		return nil
 	default:
 		return hx.Failf("bad-case", "unknown negative kind")
 	}
@@ -129,7 +147,7 @@ func c08Negative(c CaseC08, x *hx.Ctx) *hx.Failure {
 var propC08 = hx.Register(hx.Prop[CaseC08]{ID: "C08", Gen: genC08, Check: checkC08})
 
 func c08Rule() {
-	hx.Rec("C08").SetRule("cases: a reference-model splice_info_section over the supported syntax: splice_null / time_signal with time / splice_insert x {cancelled, program or component mode, immediate or timed, with/without break_duration, 0..4 components with/without time}; pts_adjustment, pts_time, durations and offsets from 33-/40-bit boundary sets; any tier, cw_index, protocol_version; real or 0xFFF splice_command_length; 0..5 descriptors: segmentation (cancelled or full, all flag combinations, 0..3 components, 40-bit duration, UPID of 0..40 bytes or MID list of 0..3 entries, named or arbitrary type, sub-segment fields for 0x34/0x36) and foreign descriptors, 0..8 alignment_stuffing bytes before CRC_32, one time in five a sibling of an earlier descriptor (same type, event id and segment numbers, differing in one other field or in none); pointer_field 0..255. One case in six is a negative: unsupported command type, encrypted bit, table id != 0xFC, or a segmentation descriptor identifier differing from CUEI in one bit. Oracle: every getter equals the model where the syntax carries the field; PTS() = (pts_time + pts_adjustment) mod 2^33; descriptors refer back to their signal; negatives map to their sentinel errors. Non-trivial: splice_insert other than the plain program/timed form, or a 33/40-bit field with a bit >= 32 set, or >= 2 descriptors of different shapes, or a negative.",
+	hx.Rec("C08").SetRule("cases: a reference-model splice_info_section over the supported syntax: splice_null / time_signal with time / splice_insert x {cancelled, program or component mode, immediate or timed, with/without break_duration, 0..4 components with/without time}; pts_adjustment, pts_time, durations and offsets from 33-/40-bit boundary sets; any tier, cw_index, protocol_version; real or 0xFFF splice_command_length; 0..5 descriptors: segmentation (cancelled or full, all flag combinations, 0..3 components, 40-bit duration, UPID of 0..40 bytes or MID list of 0..3 entries, named or arbitrary type, sub-segment fields for 0x34/0x36) and foreign descriptors, 0..8 alignment_stuffing bytes before CRC_32, one time in five a sibling of an earlier descriptor (same type, event id and segment numbers, differing in one other field or in none); pointer_field 0..255. One case in six is a negative: unsupported command type, encrypted bit, table id != 0xFC (also as a complete section of only 7..17 bytes), or a segmentation descriptor identifier differing from CUEI in one bit (also a tag-0x02 descriptor of another owner with 0..4 private bytes). Oracle: every getter equals the model where the syntax carries the field; PTS() = (pts_time + pts_adjustment) mod 2^33; descriptors refer back to their signal; negatives map to their sentinel errors. Non-trivial: splice_insert other than the plain program/timed form, or a 33/40-bit field with a bit >= 32 set, or >= 2 descriptors of different shapes, or a negative.",
 		"time_signal / program splice_insert with time_specified_flag 0 are outside the statement's supported list and are not generated as positives",
 		"section_length up to the 12-bit limit (long UPIDs push it beyond 1023)")
 }
